@@ -155,6 +155,11 @@ def check_frame(I, con, spec, views, old_heap, name):
     # frame or belongs to an object allocated during the call; what the ENVIRONMENT changes meanwhile is not a write
     seen = set()
     x = z3.Int("fx")
+    new_id = None
+    if con.new_object and hasattr(views.get(con.new_object), "t"):
+        # the object under construction is as good as allocated by the call: whatever __init__ stores into it (also private attributes
+        # no clause mentions) is inside the frame; what it must hold afterwards is said by the postconditions
+        new_id = Z.Val.id(views[con.new_object].t)
     for fname, kind, what in ctx.own_stores:
         if fname in ("__context__", "__cause__", "__suppress_context__") or fname.startswith("$ghost") or fname.startswith("rec:") or fname.startswith("$arg") or fname == "$nargs":
             continue
@@ -165,9 +170,13 @@ def check_frame(I, con, spec, views, old_heap, name):
                 continue
             seen.add(key)
             inW = z3.Or(*[p(what) for p in preds]) if preds else z3.BoolVal(False)
+            if new_id is not None:
+                inW = z3.Or(inW, what == new_id)
             ctx.oblige("%s/frame[%s]" % (name, fname), z3.Or(what >= ctx.alloc0, inW), kind="frame")
         else:
             inW = z3.Or(*[p(x) for p in preds]) if preds else z3.BoolVal(False)
+            if new_id is not None:
+                inW = z3.Or(inW, x == new_id)
             goal = z3.ForAll([x], z3.Implies(z3.And(x < ctx.alloc0, what(x)), inW))
             key = (fname, goal.sexpr())
             if key in seen:
@@ -796,7 +805,7 @@ def _compare(E, ctx, I, m, conc, out, kind, value, tr_old, con):
             real = out["post"][oid].get(f)
             if not _num_close(sym, real, exact):
                 return "field %s of object %d: symbolic %r, CPython %r" % (f, oid, sym, real)
-    nstores = sum(len(s) for s in out["stores"].values())
+    nstores = sum(len(s) for oid, s in out["stores"].items() if getattr(conc.types.get(oid), "events", True))     # shapes declared without store events do not count theirs
     symn = z3.simplify(m.eval(ctx.trlen - tr_old, model_completion=True))
     if z3.is_int_value(symn) and symn.as_long() != nstores and all(k == "store" for k, _ in (ctx.events or [])):
         return "store events: symbolic %s, CPython %d" % (symn, nstores)
